@@ -497,8 +497,19 @@ class Remote:
         if deliver:
             self.node.deliver(self.node_sock)
 
-    def send(self, message, in_response_to=0, deliver=True, ts=None):
+    def send(self, message, in_response_to=0, deliver=True, ts=None, announce=True):
+        if announce and in_response_to and type(message).__name__ == 'DataMessage' and message.data_type == b'\x00\x00':
+            # a block sent as the ANSWER to a request: the node treats it as part of a bulk download only if it has asked this
+            # peer for it, so the block is first listed in an inventory (which makes the node ask)
+            try:
+                self.announce([message.data.hash()], in_response_to)
+            except Exception:
+                pass
         self.send_raw(self.frame(message, in_response_to, ts), deliver)
+
+    def announce(self, block_ids, in_response_to=76):
+        from skepticoin.networking.messages import InventoryMessage, InventoryItem, DATA_BLOCK
+        self.send(InventoryMessage([InventoryItem(DATA_BLOCK, b) for b in block_ids]), in_response_to=in_response_to)
 
     def hello(self, my_port=2412, nonce=987654, ts=None, agent=b'vf'):
         """ts: the (sender-chosen) time stamp in the message header"""
